@@ -138,7 +138,9 @@ def run(chk):
         n_eval += 1
         chk.ob('R8.3', "calc_coefficients(%s) evaluates lane-wise" % bc, ex is None, ex.where if ex else '', 'lanewise-calc-' + bc, str(ex))
     chk.floor('R8.3', 'lane-generic evaluations', n_eval, 5 + 6 + 1 + 52 + 5)
-    S.check_thomas(chk, lib, 'R8.3')
+    ex = S.thomas_evaluates(lib)
+    n_eval += 1
+    chk.ob('R8.3', "the tridiagonal solver evaluates lane-wise (its algebra is C02's subject)", ex is None, getattr(ex, 'where', ''), 'lanewise-thomas', str(ex))
     S.check_dispatcher(chk, lib, 'R8.2')
     chk.sample({"scope": scope[:8], "lane-wise surface": ["Zip::for_each", "Zip::map_assign_into", "index_axis(_mut)(Axis(0), i)", "assign", "fill", "elementwise + - * /", "slice_axis(Axis(0))", "to_owned"]})
     chk.explanation = ("Lane independence is an effect property of the code shape: in the %d functions reachable from the strategies, every ndarray operation on a lane array "
